@@ -110,6 +110,7 @@ package mcp
 //@ func transport.sendRequest
 //@   modifies *
 //@   ensures netops == old(netops) + 1
+//@   ensures ret1 == nil ==> ret != nil
 //@ func transport.sendNotification
 //@   modifies *
 //@   ensures netops == old(netops) + 1
@@ -164,6 +165,7 @@ package mcp
 //@   trusted
 //@   modifies *
 //@   ensures netops == old(netops) + 1
+//@   ensures ret1 == nil ==> ret != nil
 //@ func stdioClientTransport.sendNotification
 //@   trusted
 //@   modifies *
@@ -808,3 +810,34 @@ package mcp
 //@ func SSEServer.processRequestAsync
 //@   before call handleRequestError#1 assert[C14,C15,C03 handler-error-is-reported-with-the-request-id] !isnil(lasterr) && arg1 == asany(lasterr) && arg2 == request.ID
 //@   before call sendSuccessResponse#1 assert[C14,C15,C03,C01 success-envelope-only-without-handler-error-and-with-the-request-id] isnil(lasterr) && arg1 == request.ID && arg2 == lastres
+
+// C14 (clients): the library's clients decode a server answer with the same decoder, applied to
+// exactly what their transport returned.
+//@ func Client.ListTools
+//@   before call parseListToolsResultFromJSON#1 assert[C14,C01 the-transports-answer-is-decoded-by-the-shared-decoder] arg0 == rawResp && rawResp != nil
+//@ func Client.CallTool
+//@   before call parseCallToolResult#1 assert[C14,C01 the-transports-answer-is-decoded-by-the-shared-decoder] arg0 == rawResp && rawResp != nil
+//@ func Client.ListPrompts
+//@   before call parseListPromptsResultFromJSON#1 assert[C14,C01 the-transports-answer-is-decoded-by-the-shared-decoder] arg0 == rawResp && rawResp != nil
+//@ func Client.GetPrompt
+//@   before call parseGetPromptResultFromJSON#1 assert[C14,C01 the-transports-answer-is-decoded-by-the-shared-decoder] arg0 == rawResp && rawResp != nil
+//@ func Client.ListResources
+//@   before call parseListResourcesResultFromJSON#1 assert[C14,C01 the-transports-answer-is-decoded-by-the-shared-decoder] arg0 == rawResp && rawResp != nil
+//@ func Client.ReadResource
+//@   before call parseReadResourceResultFromJSON#1 assert[C14,C01 the-transports-answer-is-decoded-by-the-shared-decoder] arg0 == rawResp && rawResp != nil
+//@ func Client.Initialize
+//@   before call parseInitializeResultFromJSON#1 assert[C14,C01 the-transports-answer-is-decoded-by-the-shared-decoder] arg0 == rawResp && rawResp != nil
+//@ func StdioClient.ListTools
+//@   before call parseListToolsResultFromJSON#1 assert[C14,C01 the-transports-answer-is-decoded-by-the-shared-decoder] arg0 == rawResp && rawResp != nil
+//@ func StdioClient.CallTool
+//@   before call parseCallToolResult#1 assert[C14,C01 the-transports-answer-is-decoded-by-the-shared-decoder] arg0 == rawResp && rawResp != nil
+//@ func StdioClient.ListPrompts
+//@   before call parseListPromptsResultFromJSON#1 assert[C14,C01 the-transports-answer-is-decoded-by-the-shared-decoder] arg0 == rawResp && rawResp != nil
+//@ func StdioClient.GetPrompt
+//@   before call parseGetPromptResultFromJSON#1 assert[C14,C01 the-transports-answer-is-decoded-by-the-shared-decoder] arg0 == rawResp && rawResp != nil
+//@ func StdioClient.ListResources
+//@   before call parseListResourcesResultFromJSON#1 assert[C14,C01 the-transports-answer-is-decoded-by-the-shared-decoder] arg0 == rawResp && rawResp != nil
+//@ func StdioClient.ReadResource
+//@   before call parseReadResourceResultFromJSON#1 assert[C14,C01 the-transports-answer-is-decoded-by-the-shared-decoder] arg0 == rawResp && rawResp != nil
+//@ func StdioClient.Initialize
+//@   before call parseInitializeResultFromJSON#1 assert[C14,C01 the-transports-answer-is-decoded-by-the-shared-decoder] arg0 == rawResp && rawResp != nil
